@@ -701,6 +701,10 @@ pub struct RawResponse {
     pub trailers: Option<Vec<(String, Vec<u8>)>>,
     /// error yielded by the response body, if any
     pub body_error: Option<String>,
+    /// bytes the body still yielded after it had reported `is_end_stream()` or after the exact length of its
+    /// `size_hint()`: an HTTP server (hyper) ends the message at that point, a client never receives them.
+    /// They are NOT part of `frames`.
+    pub bytes_lost_to_the_body_contract: u64,
 }
 
 impl RawResponse {
@@ -725,6 +729,7 @@ impl RawResponse {
             "frames": self.frames.len(),
             "trailers": self.trailers.as_ref().map(|t| t.iter().map(|(k, v)| format!("{}: {}", k, crate::core::show_bytes(v))).collect::<Vec<_>>()),
             "body_error": self.body_error,
+            "bytes_lost_to_the_body_contract": self.bytes_lost_to_the_body_contract,
         })
     }
     /// (Code, Message, RequestId) of an S3 error document, read with the reference XML reader
@@ -817,8 +822,16 @@ pub fn call_http_lazy(rt: &tokio::runtime::Runtime, svc: &S3Service, req: http::
             frames: Vec::new(),
             trailers: None,
             body_error: None,
+            bytes_lost_to_the_body_contract: 0,
         };
+        // what a server does with the body: it trusts is_end_stream() and an exact size_hint()
+        let exact: Option<u64> = http_body::Body::size_hint(&body).exact();
+        let mut delivered: u64 = 0;
+        let mut ended_by_contract = false;
         loop {
+            if !ended_by_contract && (http_body::Body::is_end_stream(&body) || exact.is_some_and(|n| delivered >= n)) {
+                ended_by_contract = true;
+            }
             let fr = AssertUnwindSafe(futures::future::poll_fn(|cx| {
                 http_body::Body::poll_frame(Pin::new(&mut body), cx)
             }))
@@ -832,10 +845,19 @@ pub fn call_http_lazy(rt: &tokio::runtime::Runtime, svc: &S3Service, req: http::
                     break;
                 }
                 Ok(Some(Ok(frame))) => match frame.into_data() {
-                    Ok(d) => out.frames.push(RespFrame { at_ms: t0.elapsed().as_millis() as u64, data: d.to_vec() }),
+                    Ok(d) => {
+                        if ended_by_contract {
+                            out.bytes_lost_to_the_body_contract += d.len() as u64;
+                        } else {
+                            delivered += d.len() as u64;
+                            out.frames.push(RespFrame { at_ms: t0.elapsed().as_millis() as u64, data: d.to_vec() });
+                        }
+                    }
                     Err(fr) => {
                         if let Ok(t) = fr.into_trailers() {
-                            out.trailers = Some(header_vec(&t));
+                            if !ended_by_contract {
+                                out.trailers = Some(header_vec(&t));
+                            }
                         }
                     }
                 },
@@ -843,9 +865,17 @@ pub fn call_http_lazy(rt: &tokio::runtime::Runtime, svc: &S3Service, req: http::
             if lazy_ms > 0 {
                 tokio::time::sleep(std::time::Duration::from_millis(lazy_ms)).await;
             }
+            if out.bytes_lost_to_the_body_contract > (64 << 20) {
+                break;
+            }
             if out.frames.len() > 100_000 {
                 out.body_error = Some("verif: more than 100000 frames".into());
                 break;
+            }
+        }
+        if let Some(n) = exact {
+            if delivered < n && out.body_error.is_none() {
+                out.body_error = Some(format!("verif: the body ended after {delivered} of the {n} bytes its size_hint() declared"));
             }
         }
         CallOutcome::Response(out)
@@ -869,12 +899,115 @@ pub fn call_raw(rt: &tokio::runtime::Runtime, svc: &S3Service, req: &RawRequest)
 }
 
 /// Convenience: fresh log + Recorder(script) + service from cfg; returns outcome and events.
+// ---------------------------------------------------------------------------------------------
+// Sessions: one S3Service instance serving many requests in a row.  The properties quantify over
+// requests, not over "the first request a service sees": state that an implementation carries from one
+// call to the next (a cache of signing keys, of parsed hosts, a reused buffer) must not change a verdict.
+// ---------------------------------------------------------------------------------------------
+
+struct Session {
+    services: HashMap<String, (S3Service, EventLog)>,
+    history: std::collections::VecDeque<serde_json::Value>,
+    served: u64,
+}
+
+thread_local! {
+    static SESSION: std::cell::RefCell<Option<Session>> = const { std::cell::RefCell::new(None) };
+}
+
+/// from now on `run_once` (without a script) reuses one service per configuration on this thread
+pub fn session_begin() {
+    SESSION.with(|s| *s.borrow_mut() = Some(Session { services: HashMap::new(), history: std::collections::VecDeque::new(), served: 0 }));
+}
+
+/// ends the session; returns how many requests it served
+pub fn session_end() -> u64 {
+    SESSION.with(|s| s.borrow_mut().take().map_or(0, |x| x.served))
+}
+
+pub fn session_active() -> bool {
+    SESSION.with(|s| s.borrow().is_some())
+}
+
+/// the last requests the session served (most recent last), for witnesses
+pub fn session_history() -> Vec<serde_json::Value> {
+    SESSION.with(|s| s.borrow().as_ref().map_or_else(Vec::new, |x| x.history.iter().cloned().collect()))
+}
+
+/// runs `f` with the session set aside (every `run_once` inside builds a fresh service)
+pub fn session_suspended<T>(f: impl FnOnce() -> T) -> T {
+    let saved = SESSION.with(|s| s.borrow_mut().take());
+    let out = f();
+    SESSION.with(|s| *s.borrow_mut() = saved);
+    out
+}
+
+/// Judges one case with `f`.  Inside a session a violation is re-judged on a fresh service: if it disappears there,
+/// the verdict depended on what the service had served before, and it is reported under a signature of its own together
+/// with the session's recent history (replaying the case alone would hold).
+pub fn judge_with_session_check(r: &mut crate::core::Report, f: impl Fn(&mut crate::core::Report)) {
+    if !session_active() {
+        f(r);
+        return;
+    }
+    let mut inside = crate::core::Report::new();
+    f(&mut inside);
+    if !inside.violation_count.is_empty() {
+        let mut fresh = crate::core::Report::new();
+        session_suspended(|| f(&mut fresh));
+        if fresh.violation_count.is_empty() {
+            let history = session_history();
+            for v in &inside.violations {
+                let head: Vec<&str> = v.signature.split('/').take(2).collect();
+                r.violated(
+                    format!("{}/only-on-a-service-that-served-earlier-requests", head.join("/")),
+                    serde_json::json!({"kind": "in-session", "signature_on_the_reused_service": v.signature, "witness": v.witness, "earlier_requests_on_the_same_service": history,
+                        "note": "a fresh service gives the expected verdict for this request; replaying the case alone will therefore hold"}),
+                );
+            }
+            return;
+        }
+    }
+    r.merge(inside);
+}
+
 pub fn run_once(
     rt: &tokio::runtime::Runtime,
     cfg: &SvcCfg,
     script: Option<Script>,
     req: &RawRequest,
 ) -> (CallOutcome, Vec<Event>) {
+    if script.is_none() && session_active() {
+        let key = serde_json::to_string(cfg).unwrap_or_default();
+        let (svc, log) = SESSION.with(|s| {
+            let mut b = s.borrow_mut();
+            let sess = b.as_mut().expect("session");
+            // (bounded: configurations that differ per case, e.g. a changed secret, do not pile up)
+            if sess.services.len() > 64 {
+                sess.services.clear();
+            }
+            sess.services
+                .entry(key)
+                .or_insert_with(|| {
+                    let log = EventLog::new();
+                    (build_service(cfg, Recorder::new(log.clone()), &log), log)
+                })
+                .clone()
+        });
+        let _ = log.take();
+        let out = call_raw(rt, &svc, req);
+        let events = log.take();
+        SESSION.with(|s| {
+            if let Some(sess) = s.borrow_mut().as_mut() {
+                sess.served += 1;
+                sess.history.push_back(req.to_json());
+                if sess.history.len() > 6 {
+                    sess.history.pop_front();
+                }
+            }
+        });
+        return (out, events);
+    }
     let log = EventLog::new();
     let rec = match script {
         Some(s) => Recorder::with_script(log.clone(), s),
